@@ -156,7 +156,8 @@ def run(ctx):
         "the distribution parameters are decided exactly (arguments handed to NumPy's generator vs the specification's rational); the shape of the distribution and 'any seed' are a fixed-seed statistical check with wide margins (outside TLC)",
         "observation of the generator arguments is skipped (not failed) if the initialiser does not call np.random.uniform / normal"])
     rep.rule = "every (initialiser, shape, gain | mode x nonlinearity x slope) case emitted by TLC from spec/Init.tla; non-trivial = has a distribution scale to check; distinct by the case record"
-    shapes = "{<<3>>, <<2, 3>>, <<4, 2>>, <<2, 3, 2>>, <<3, 2, 2, 2>>" + ("" if q else ", <<5>>, <<1, 1>>, <<3, 1, 3>>, <<2, 2, 3, 1>>") + "}"
+    # (ranks 5 and 6: receptive field = product of ALL dims after the second, as in PyTorch)
+    shapes = "{<<3>>, <<2, 3>>, <<4, 2>>, <<2, 3, 2>>, <<3, 2, 2, 2>>, <<2, 3, 1, 2, 3>>, <<2, 2, 2, 1, 2, 2>>" + ("" if q else ", <<5>>, <<1, 1>>, <<3, 1, 3>>, <<2, 2, 3, 1>>, <<3, 2, 2, 2, 2>>") + "}"
     consts = dict(Shapes=tlc.Raw(shapes), Gains=tlc.Raw("{Q1, <<1, 2>>, QI(2)}"), Slopes=tlc.Raw("{Q0, <<1, 2>>, Q1}"))
     w, cfg = tlc.make_mc("Init", consts, invariants=["Emit", "ScalePositive"], properties=["FrameShape"])
     res = tlc.run_tlc("Init", cfg, workers=1, wrapper=w, timeout=3000)
